@@ -34,6 +34,10 @@ def run(ctx):
     sites = panics.analyse(ctx, bodies, "C01.D2.sweep-bound", include_alloc=False)
     ctx.floor("C01.D2.sweep-bound.bodies", len(bodies), 4)      # (not the number of panic-capable sites: fewer of those is no defect)
     c07.d5(ctx, F)
+    # "forwarded byte-for-byte to every healthy subscriber" includes frames near the size limit: what the decoder accepts from a
+    # publisher the encoder must accept towards the subscribers (C05.D3: both sides apply the limit to the same quantity)
+    from . import c05
+    c05.d3(ctx, F)
     # each router owns its collections: constructed in pair(), never shared
     pair = F.body("selium_server::topic::pubsub::Topic::<T, E>::pair")
     ctx.touch(pair)
